@@ -426,18 +426,20 @@ theorem storeRec_objs (s : State) (i k r) (j) :
   · right; subst hj; simp
   · left; simp [hj]
 
-/-- `access` changes at most the accessed object, and only when it was a ghost -/
+/-- `access` changes at most the accessed object, and only when it was a ghost with a record -/
 theorem access_objs (s : State) (i j) :
     (access s i).1.objs j = s.objs j ∨
     (j = i ∧ (s.objs i).status = .ghost ∧ ((access s i).1.objs i).status = .uptodate ∧
-      ((access s i).1.objs i).oid = (s.objs i).oid ∧ ((access s i).1.objs i).jar = (s.objs i).jar) := by
+      ((access s i).1.objs i).oid = (s.objs i).oid ∧ ((access s i).1.objs i).jar = (s.objs i).jar ∧
+      ∃ k, (s.objs i).oid = some k ∧ loadRec s k ≠ none) := by
   by_cases hg : (s.objs i).status = .ghost
   · unfold access; dsimp only
     repeat' split
     all_goals first | (left; rfl) | skip
+    rename_i k hk _ r hr
     simp only [setO]
     by_cases hj : j = i
-    · right; subst hj; simp [hg]
+    · right; subst hj; simp [hg]; exact ⟨k, hk, by rw [hr]; simp⟩
     · left; simp [hj]
   · left; unfold access; simp [hg]
 
@@ -536,5 +538,21 @@ theorem storeRec_tmp (s : State) (i k r t) (hsp : s.sp = some t) :
 theorem classify_modified (s : State) (i k) :
     (classify s i k).modified = if isNewObj s (s.objs i) k = true then s.modified else s.modified ++ [k] := by
   unfold classify; split <;> simp_all
+
+
+theorem access_err_state (s : State) (i) (h : (access s i).2 ≠ none) : (access s i).1 = s := by
+  unfold access at h ⊢; dsimp only at h ⊢
+  repeat' split
+  all_goals first | rfl | skip
+  all_goals simp_all
+
+theorem storeRec_cache' (s : State) (i k r) :
+    (storeRec s i k r).1.cache = s.cache ∨ (storeRec s i k r).1.cache = s.cache.set k i := by
+  cases he : (storeRec s i k r).2 with
+  | none => exact Or.inr (storeRec_cache _ _ _ _ he)
+  | some e => exact Or.inl (storeRec_fail_objs _ _ _ _ (by rw [he]; simp)).2
+
+@[simp] theorem storeRec_added (s : State) (i k r) : (storeRec s i k r).1.added = s.added := by
+  have := storeRec_books s i k r; simp only [books, Prod.mk.injEq] at this; exact this.1
 
 end Proofs.Conn
